@@ -36,7 +36,7 @@ MAX_COORDS = 90
 
 def generate(rng):
     cfg = sample_config(rng, n_range=(2, 12), k_range=(2, 4), max_iter_range=(1, 3), lr_choices=(1e-3, 1e-2, 0.1),
-                        alpha_choices=(0.0, 0.01, 0.3))
+                        alpha_choices=(0.0, 0.01, 0.3), p_big=0.12)
     fam = FAMILIES[cfg["family"]]
     deco = None
     if cfg["n"] >= 3 and rng.random() < 0.3:
